@@ -1,3 +1,3 @@
 #!/bin/sh
 # regenerate MANIFEST.json; the arguments of checklib.manifest are the properties whose check is registered
-cd "$(dirname "$0")/.." && python3 -m checklib.manifest C01 C02 C03 C04 C05 C06 C07 C08 C09 C11 C12 C13 C14 C15 C16 C17 C18 C19 C20 "$@"
+cd "$(dirname "$0")/.." && python3 -m checklib.manifest C01 C02 C03 C04 C05 C06 C07 C08 C09 C10 C11 C12 C13 C14 C15 C16 C17 C18 C19 C20 "$@"
